@@ -323,63 +323,89 @@ def segBytes : Char ⊕ UInt8 → List UInt8
   | .inl c => utf8 c
   | .inr b => [b]
 
-theorem segment_go_bytes (fuel : Nat) (bs : List UInt8) (h : bs.length < fuel) :
-    (segment.go bs fuel).flatMap segBytes = bs := by
-  induction fuel generalizing bs with
-  | zero => omega
-  | succ fuel ih =>
+theorem segment_go_skip (x rest : List UInt8) : segment.go (x ++ rest) x.length = segment.go rest 0 := by
+  induction x with
+  | nil => rfl
+  | cons b t ih => simp [segment.go, ih]
+
+@[simp] theorem segment_nil : segment [] = [] := by simp [segment, segment.go]
+
+/-- unfolding of `segment` on a non-empty list -/
+theorem segment_cons (b : UInt8) (rest : List UInt8) :
+    segment (b :: rest) =
+      match decodeHead (b :: rest) with
+      | some c => .inl c :: segment ((b :: rest).drop c.utf8Size)
+      | none => .inr b :: segment rest := by
+  unfold segment
+  simp only [segment.go]
+  cases hd : decodeHead (b :: rest) with
+  | none => rfl
+  | some c =>
+    simp only
+    congr 1
+    obtain ⟨l, hl⟩ := decodeHead_some hd
+    have hne := utf8_ne_nil c
+    obtain ⟨b0, t, hbt⟩ := List.exists_cons_of_ne_nil hne
+    have hlen : t.length = c.utf8Size - 1 := by
+      have := utf8_length c; rw [hbt] at this; simp at this; omega
+    rw [hbt] at hl
+    simp only [List.cons_append, List.cons.injEq] at hl
+    have hdrop : (b :: rest).drop c.utf8Size = l := by
+      have : b :: rest = utf8 c ++ l := by rw [hbt]; simp [hl.1, hl.2]
+      rw [this, ← utf8_length c]; simp
+    rw [hdrop, hl.2, ← hlen]
+    exact segment_go_skip t l
+
+theorem segment_bytes (bs : List UInt8) : (segment bs).flatMap segBytes = bs := by
+  induction h : bs.length using Nat.strongRecOn generalizing bs with
+  | _ n ih =>
     cases bs with
-    | nil => simp [segment.go]
+    | nil => simp
     | cons b rest =>
-      simp only [segment.go]
+      rw [segment_cons]
       cases hd : decodeHead (b :: rest) with
       | none =>
         simp only [List.flatMap_cons, segBytes]
-        rw [ih rest (by simp at h; omega)]; rfl
+        rw [ih rest.length (by simp at h; omega) rest rfl]; rfl
       | some c =>
         obtain ⟨l, hl⟩ := decodeHead_some hd
-        simp only [List.flatMap_cons, segBytes]
         have hdrop : (b :: rest).drop c.utf8Size = l := by
           rw [hl, ← utf8_length c]; simp
-        rw [hdrop, ih l ?_, hl]
+        simp only [List.flatMap_cons, segBytes]
+        rw [hdrop, ih l.length ?_ l rfl, hl]
         have h1 : (b :: rest).length = (utf8 c).length + l.length := by rw [hl]; simp
         have h2 := utf8_length c
         have h3 := c.utf8Size_pos
         simp at h h1; omega
-
-theorem segment_bytes (bs : List UInt8) : (segment bs).flatMap segBytes = bs :=
-  segment_go_bytes _ bs (by omega)
 
 /-- what a segment of a run of bytes ≥ 0x80 can be -/
 def SegHigh : Char ⊕ UInt8 → Prop
   | .inl c => 0x80 ≤ c.toNat
   | .inr b => 0x80 ≤ b.toNat
 
-theorem segment_go_high (fuel : Nat) (bs : List UInt8) (hb : ∀ b ∈ bs, 0x80 ≤ b.toNat) :
-    ∀ x ∈ segment.go bs fuel, SegHigh x := by
-  induction fuel generalizing bs with
-  | zero => simp [segment.go]
-  | succ fuel ih =>
+theorem segment_high (bs : List UInt8) (hb : ∀ b ∈ bs, 0x80 ≤ b.toNat) :
+    ∀ x ∈ segment bs, SegHigh x := by
+  induction h : bs.length using Nat.strongRecOn generalizing bs with
+  | _ n ih =>
     cases bs with
-    | nil => simp [segment.go]
+    | nil => simp
     | cons b rest =>
-      simp only [segment.go]
+      rw [segment_cons]
       cases hd : decodeHead (b :: rest) with
       | none =>
         intro x hx
         simp only [List.mem_cons] at hx
         rcases hx with rfl | hx
         · exact hb b (by simp)
-        · exact ih rest (fun b' hb' => hb b' (by simp [hb'])) x hx
+        · exact ih rest.length (by simp at h; omega) rest (fun b' hb' => hb b' (by simp [hb'])) rfl x hx
       | some c =>
         intro x hx
         simp only [List.mem_cons] at hx
         rcases hx with rfl | hx
         · exact decodeHead_high hd (hb b (by simp))
-        · exact ih _ (fun b' hb' => hb b' (List.mem_of_mem_drop hb')) x hx
-
-theorem segment_high (bs : List UInt8) (hb : ∀ b ∈ bs, 0x80 ≤ b.toNat) :
-    ∀ x ∈ segment bs, SegHigh x := segment_go_high _ bs hb
+        · have hpos := c.utf8Size_pos
+          exact ih _ (by rw [← h]; simp only [List.length_drop, List.length_cons]; omega) _
+            (fun b' hb' => hb b' (List.mem_of_mem_drop hb')) rfl x hx
 
 /-! ### safely_unquote_*: decoded bytes are preserved -/
 
